@@ -208,6 +208,9 @@ func ValidScenario(sc *Scenario) bool {
 	for _, f := range sc.Faults {
 		switch f.Kind {
 		case "silentFrom", "dropB2C", "dropC2B":
+			if f.Kind != "silentFrom" && f.N == 0 && sc.Cfg.TimeoutUs == 0 {
+				return false // losing CONNECT/CONNACK needs a connect timeout
+			}
 			if sc.Cfg.Client == "reconnect" || sc.Cfg.Client == "retry" {
 				if sc.Cfg.PingIntervalUs == 0 && sc.Cfg.ResponseTimeoutUs == 0 {
 					return false
